@@ -231,10 +231,27 @@ func ruleWalkerOut(c *Ctx) {
 				continue
 			}
 			var locals, outs []string
+			// decode targets: locals whose address is taken (n and err of an
+			// inlined helper are plain result variables)
+			addrTaken := map[types.Object]bool{}
+			ast.Inspect(cc, func(n ast.Node) bool {
+				if u, ok := n.(*ast.UnaryExpr); ok && u.Op == token.AND {
+					if id, ok := ast.Unparen(u.X).(*ast.Ident); ok {
+						addrTaken[info.Uses[id]] = true
+					}
+				}
+				return true
+			})
 			ast.Inspect(cc, func(n ast.Node) bool {
 				switch x := n.(type) {
 				case *ast.ValueSpec:
-					if x.Type != nil {
+					target := false
+					for _, nm := range x.Names {
+						if addrTaken[info.Defs[nm]] {
+							target = true
+						}
+					}
+					if x.Type != nil && target {
 						locals = append(locals, typeStr(info.TypeOf(x.Type)))
 					}
 				case *ast.CallExpr:
